@@ -26,6 +26,20 @@ CHECKS = {
         thorough=True),
 }
 
+CHECKS['C16'] = dict(
+    category='proof',
+    text='split_lines is verified against its contract (count, losslessness, '
+         'every line terminated exactly once, clean last line, agreement of '
+         'the two modes) for every non-empty byte string and each of the 10 '
+         'newline sequences the statement names; facts about bytes.split and '
+         'concatenation (B1-B6) are trusted axioms, differential-tested. An '
+         'exhaustive small-scope enumeration is the labelled bounded stand-in.',
+    design_ref='5/C16',
+    technique='contract-based deductive verification: AST->VC symbolic '
+              'execution with schema-instantiated sequence facts, discharged '
+              'by cvc5/z3',
+    thorough=True)
+
 NOT_YET = 'check not built yet (work in progress; see DESIGN.md section 5)'
 NA = {}
 
